@@ -125,11 +125,32 @@ func (g *DirectedTargetGraph) GetDependencies(target model.BuildNode) []model.Bu
 func (g *DirectedTargetGraph) GetTargetDependencies(node model.BuildNode) []*model.Target {
 	var targets []*model.Target
 	for _, dependency := range g.GetDependencies(node) {
-		if target, ok := dependency.(*model.Target); ok {
+		if target := g.ResolveTarget(dependency); target != nil {
 			targets = append(targets, target)
 		}
 	}
 	return targets
+}
+
+// ResolveTarget follows aliases until it reaches a target.
+// Returns nil if the node does not (transitively) point to a target.
+func (g *DirectedTargetGraph) ResolveTarget(node model.BuildNode) *model.Target {
+	visited := make(map[label.TargetLabel]struct{})
+	for node != nil {
+		if target, ok := node.(*model.Target); ok {
+			return target
+		}
+		alias, ok := node.(*model.Alias)
+		if !ok {
+			return nil
+		}
+		if _, seen := visited[alias.Label]; seen {
+			return nil
+		}
+		visited[alias.Label] = struct{}{}
+		node = g.nodes[alias.Actual]
+	}
+	return nil
 }
 
 func (g *DirectedTargetGraph) GetDependants(target model.BuildNode) []model.BuildNode {
